@@ -5,6 +5,9 @@ mod field;
 mod group;
 mod job;
 mod r1cs;
+mod oracle;
+mod scen_c03;
+mod scen_c10;
 mod scen_r1cs;
 mod shapes;
 
@@ -92,6 +95,59 @@ fn tasks_for(prop: &str, tier: &str, seed: u64) -> Vec<Task> {
             }
             out
         }
+        "C03" => {
+            let mut out = vec![];
+            for (k, shape) in shapes::c03_shapes(thorough, seed).into_iter().enumerate() {
+                let cs: Vec<&str> = if thorough { curves.clone() } else { vec![["secq256k1", "zorro", "curve25519"][k % 3]] };
+                for c in cs {
+                    let (shape, c) = (shape.clone(), c.to_string());
+                    out.push(Task {
+                        name: format!("C03:{}:{}", shape.name, c),
+                        replay: serde_json::json!({"kind": "c03", "shape": scen_r1cs::shape_json(&shape), "seed": seed}),
+                        run: Box::new(move || {
+                            use scen_c03::job_c03 as f;
+                            on_curve!(c.as_str(), f, &shape, seed, &c)
+                        }),
+                    });
+                }
+            }
+            out
+        }
+        "C10" => {
+            let mut out = vec![];
+            for (k, case) in scen_c10::c10_cases(thorough).into_iter().enumerate() {
+                let cs: Vec<&str> = if thorough { curves.clone() } else { vec![["secq256k1", "zorro", "curve25519"][k % 3]] };
+                for c in cs {
+                    let (case, c) = (case.clone(), c.to_string());
+                    out.push(Task {
+                        name: format!("C10:{}:{}", case.name, c),
+                        replay: serde_json::json!({"kind": "c10", "case": case, "seed": seed}),
+                        run: Box::new(move || {
+                            use scen_c10::job_c10 as f;
+                            on_curve!(c.as_str(), f, &case, seed, &c)
+                        }),
+                    });
+                }
+            }
+            out
+        }
+        "C13" => {
+            let mut out = vec![];
+            for variant in ["default_bases", "random_bases", "default_bases_literals", "random_bases_literals"] {
+                for c in ["secq256k1", "zorro", "curve25519"] {
+                    let (variant, c) = (variant.to_string(), c.to_string());
+                    out.push(Task {
+                        name: format!("C13:{}:{}", variant, c),
+                        replay: serde_json::json!({"kind": "c13", "variant": variant, "seed": seed}),
+                        run: Box::new(move || {
+                            use scen_c10::job_c13 as f;
+                            on_curve!(c.as_str(), f, &variant, seed, &c)
+                        }),
+                    });
+                }
+            }
+            out
+        }
         _ => {
             let _ = curve_tasks(&curves, |_| vec![]);
             panic!("unknown property {}", prop)
@@ -104,6 +160,9 @@ fn sanitize(s: &str) -> String {
 }
 
 fn main() {
+    std::panic::set_hook(Box::new(|info| {
+        eprintln!("panic: {}", info.to_string().lines().next().unwrap_or(""));
+    }));
     let args: Vec<String> = std::env::args().collect();
     let get = |k: &str| -> Option<String> { args.iter().position(|a| a == k).and_then(|i| args.get(i + 1).cloned()) };
     match args.get(1).map(|s| s.as_str()) {
